@@ -281,6 +281,10 @@ func genC09(e *emitter, tier string) {
 		sameT, detail := typedRepeat(e)
 		e.line(fmt.Sprintf("(c09.typed %s %s)", sexpBool(sameT), quote(detail)))
 	}
+	for k := 0; k < nt*2; k++ {
+		sameT, detail := reconcileRepeat(e)
+		e.line(fmt.Sprintf("(c09.typed %s %s)", sexpBool(sameT), quote(detail)))
+	}
 	for k := 0; k < nt*4; k++ {
 		sameT, detail := operandRepeat(e)
 		e.line(fmt.Sprintf("(c09.typed %s %s)", sexpBool(sameT), quote(detail)))
@@ -517,6 +521,80 @@ func operandRepeat(e *emitter) (bool, string) {
 	second := render()
 	if first != second {
 		return false, "the same typed and field-set calls on the same operand objects gave another result the second time"
+	}
+	return true, ""
+}
+
+// a schema under which reconciling {spec.replicas, status} collects a change (spec turned
+// atomic) and then fails (the type of status does not resolve)
+const brokenReconcileYAML = `types:
+- name: root
+  map:
+    fields:
+    - name: spec
+      type:
+        namedType: spec
+        elementRelationship: atomic
+    - name: status
+      type:
+        namedType: doesNotExist
+- name: spec
+  map:
+    fields:
+    - name: replicas
+      type:
+        scalar: numeric
+`
+
+// reconciling a record with a schema, before and after reconciliations that fail midway:
+// the answer for the same set and schema must not change
+func reconcileRepeat(e *emitter) (bool, string) {
+	base := schemaMenu()[1]
+	y := atomicVariant(e.rng.Intn(128))
+	p, err := typed.NewParser(typed.YAMLObject(y))
+	if err != nil {
+		return true, ""
+	}
+	tv, _ := typed.AsTyped(value.NewValueInterface(nil), &p.Schema, nameRef("root"))
+	v := genValue(e.rng, &base.parser.Schema, base.roots[0], genMode{}, 4)
+	btv := typedOf(base, base.roots[0], v, false)
+	if btv == nil {
+		return true, ""
+	}
+	set, err := btv.ToFieldSet()
+	if err != nil {
+		return true, ""
+	}
+	render := func() (out string) {
+		defer func() {
+			if x := recover(); x != nil {
+				out = "panic"
+			}
+		}()
+		r, err := typed.ReconcileFieldSetWithSchema(set, tv)
+		switch {
+		case err != nil:
+			return "err"
+		case r == nil:
+			return "unchanged"
+		}
+		return sexpSet(r)
+	}
+	first := render()
+	bp, err := typed.NewParser(typed.YAMLObject(brokenReconcileYAML))
+	if err != nil {
+		return true, ""
+	}
+	btv2 := typed.AsTypedUnvalidated(value.NewValueInterface(nil), &bp.Schema, nameRef("root"))
+	bset := fieldpath.NewSet(fieldpath.MakePathOrDie("spec", "replicas"), fieldpath.MakePathOrDie("status"))
+	for i := 0; i < 1+e.rng.Intn(3); i++ {
+		func() {
+			defer func() { recover() }()
+			typed.ReconcileFieldSetWithSchema(bset, btv2)
+		}()
+		if got := render(); got != first {
+			return false, "reconciling the same record with the same schema gave another result after a reconciliation that failed"
+		}
 	}
 	return true, ""
 }
